@@ -245,7 +245,10 @@ func (a *adapter) Data(data []byte, streamEnded bool) error {
 		default:
 			panic(fmt.Sprintf("unexpected state: %v", a.state))
 		}
-		if a.buffer.Len() == 0 {
+		// A zero-length message is complete as soon as its prefix has been read, so the loop only stops
+		// on an empty buffer between messages. Stopping right after the prefix would hold the message
+		// back until the next DATA frame and lose it, together with END_STREAM, when there is none.
+		if a.buffer.Len() == 0 && !(a.state == readingMessageData && a.length == 0) {
 			return nil
 		}
 	}
